@@ -283,6 +283,9 @@ def factory(shape, body="plain"):
         ret = "return ('r', MID)"
     elif body == "cn":
         ret = f"return ('r', MID, call_next({same}))"
+    elif body == "cnstar":
+        # call_next through the run-time helper (unpacked arguments)
+        ret = f"return ('r', MID, call_next(*[{same}]))"
     elif body == "cnk":
         # call_next with every positional-or-keyword parameter given by name (positional-only ones stay positional)
         po = [nm for nm, kind, _ in params if kind == "P"]
